@@ -43,8 +43,8 @@ type Solver struct {
 	Errors   []string
 	// hybrid mode: quickMs > 0 gives the primary (incremental z3) only that long per query; what it
 	// cannot decide in that time goes to the fallback (one-shot cvc5 int-blasting)
-	quickMs  int
-	fallback *Solver
+	quickMs   int
+	fallback  *Solver
 	Fallbacks int
 }
 
